@@ -179,8 +179,11 @@ class Lysosome:
                 print(f"🗑️ [Lysosome] Ingested {waste.waste_type.value} from {waste.source}")
 
             # Auto-digest if threshold reached
-            if len(self._queue) >= self.auto_digest_threshold:
-                self._auto_digest()
+            needs_digest = len(self._queue) >= self.auto_digest_threshold
+
+        # digest() takes the lock itself, so it must run after we released it
+        if needs_digest:
+            self._auto_digest()
 
     def ingest_error(
         self,
